@@ -1,9 +1,9 @@
 #!/bin/sh
 # usage: tools/try_mutation.sh <patch.diff> <Cxx> [tier]  — apply to /repo, run the check, undo straight afterwards
 patch="$1"; pid="$2"; tier="${3:-quick}"
-git -C /repo apply "$patch" || { echo "patch does not apply"; exit 3; }
+git -C /repo apply --3way "$patch" >/dev/null 2>&1 || { echo "patch does not apply"; exit 3; }
 cd /verif && ./check "$pid" --tier "$tier" > /tmp/try_mut.log 2>&1
 rc=$?
-git -C /repo checkout -- .
+git -C /repo checkout HEAD -- .
 grep -E "VIOLATION|KNOWN-FINDING|INFRA|^\[$pid\] tier" /tmp/try_mut.log | head -8
 echo "exit=$rc"
